@@ -65,6 +65,18 @@ def run(R):
             "the asyncio driver returns StopIteration.value and AsyncTaskResult.result, like the scheduler's driver",
             "the asyncio driver handles %s but the scheduler's driver handles %s: a body that ends with result(x) works synchronously and raises AsyncTaskResult under .asyncio()"
             % (sorted(gs), sorted(sched_signals)))
+    # ... at every place the generator is stepped (send, throw, and a priming next()): each step can be the one at which the body ends
+    gen_names = set(t.id for n in q.scope_nodes(gw.node) if isinstance(n, ast.Assign) and isinstance(n.value, ast.Call) and q.call_name(n.value) == "fn"
+                    for t in n.targets if isinstance(t, ast.Name))
+    step_calls = [c for c in q.calls(gw.node) if (q.attr_call(c)[1] in ("send", "throw", "__next__") and q.attr_call(c)[0] is not None and q.src(q.attr_call(c)[0]) in gen_names)
+                  or (q.call_name(c) == "next" and c.args and q.src(c.args[0]) in gen_names)]
+    for c in step_calls:
+        one = signals_of(gw, lambda x, c=c: x is c)
+        R.check(one == sched_signals, "C15.ENGINES", "%s:signals:%s" % (gw.qualname, q.src(c)[:30]), R.site(gw, c),
+                "`%s` is covered by the handlers for StopIteration and AsyncTaskResult" % q.src(c)[:30],
+                "the step `%s` is covered only by %s: a body that ends there with %s (e.g. `result(cached); return` before its first yield) raises out of "
+                ".asyncio() although the synchronous call returns the value" % (q.src(c)[:30], sorted(one) or "no end-of-body handler", sorted(sched_signals - one)))
+    R.check(len(step_calls) >= 2, "C15.ENGINES", gw.qualname + ":steps", R.site(gw), "%d generator steps examined" % len(step_calls), "fewer than two generator steps found")
     ps = signals_of(pw, lambda c: q.call_name(c) == "fn")
     R.check("AsyncTaskResult.result" in ps, "C15.ENGINES", pw.qualname + ":signals", R.site(pw),
             "the wrapper for plain functions also converts AsyncTaskResult.result (the scheduler's wrapper routes it the same way)",
@@ -100,6 +112,14 @@ def run(R):
             "after a successful resolve the pending exception is cleared before the next step",
             "after a successful resolve the old exception is still pending: once one yield failed (and was caught by the body) every later step throws the stale exception again",
             cfg.fmt_path(p) if p else None)
+    # ... on every way from one step to the next throw (a shortcut for a bare `yield` that skips the resolve must not skip the clearing)
+    for sn in sends + [n for n, c in throws]:
+        after_step = [e.dst for e in cfg.out_edges(sn.id, N) if e.label != "exc"]
+        pst = cfg.find_path(after_step, [n for n, c in throws], N, cut_nodes=clears)
+        R.check(pst is None, "C15.ENGINES", "%s:fresh-between-steps:%d" % (gw.qualname, sn.lineno - gw.lineno), R.site(gw, sn.ast),
+                "between two steps the pending-exception variable is assigned anew",
+                "from one step of the generator a throw() can be reached without `%s` being assigned again: an exception the body has caught and handled is thrown "
+                "into it a second time at a later, unrelated yield" % exn, cfg.fmt_path(pst) if pst else None)
     okc = all(isinstance(n.ast.value, ast.Constant) and n.ast.value.value is None or isinstance(n.ast.value, (ast.Name, ast.Tuple)) for n in clears)
     # the value sent is the resolved value of the previous yield
     sv = q.src(kit.call_sites(gw, lambda c: q.attr_call(c)[1] == "send")[0][1].args[0])
@@ -258,7 +278,8 @@ def run(R):
             def visit_Name(self, node):
                 if isinstance(node.ctx, ast.Load) and node.id != par:
                     vals = common.assigned_values(ra.node, node.id)
-                    if len(vals) == 1 and vals[0][0] == "expr":
+                    if vals and all(k_ == "expr" for k_, v_ in vals) and len(set(ast.unparse(v_) for k_, v_ in vals)) == 1:
+                        # (one definition, or the same expression in several arms)
                         return through(vals[0][1], depth + 1)
                 return node
         import copy as _copy
